@@ -431,9 +431,14 @@ func runC19(r *Run, stratum string) *Violation {
 				}
 			}
 			restartable := errors.Is(l.sendErr, syncer.ErrRedisTypologyChanged) || errors.Is(l.sendErr, syncer.ErrRestart) || l.sendErr != nil || l.spErr != nil
-			if !restartable || restarts > 8 {
+			if !restartable {
 				setV("C19.ended", "replay ended without a reported error", "Send returned %v", l.sendErr)
 				break
+			}
+			if restarts > 8 {
+				// every restart runs into the same refusal for as long as the scheduler keeps the slot half migrated
+				// (TRYAGAIN): reported errors, the tool behaves; this run's restart budget is used up
+				Inconc("restart budget used up: %d reported restarts, last error %v", restarts, l.sendErr)
 			}
 			r.Logf("RESTART after Send error: %v", l.sendErr)
 			restarts++
